@@ -616,7 +616,8 @@ int main(int argc, char **argv)
 				ev.payload = ev.payload_size ? &pbuf.p : NULL; ev.is_jumbo = s.jumbo;
 				set_state(th, TH_ST_RUNNING); th->cpu = g_cpu[0]; th->is_out_of_cpu = 0;
 				emu->ev = &ev; g_lower = 0; n++;
-				int r = MSPEC.event(emu);
+				/* a spec without handler makes the real model_event() accept everything: count as accepted */
+				int r = MSPEC.event ? MSPEC.event(emu) : 0;
 				if ((r == 0 || g_lower) && !bad++) snprintf(first, sizeof(first), "first offender: model byte 0x%02x with %c%c accepted", m, c, v);
 			}
 		}
